@@ -266,7 +266,15 @@ mod unstable {
         if replace {
             let varnames = choose_fresh_variable_names(
                 &formula.variables(),
-                &ivar.name.chars().next().unwrap().to_string(),
+                // the first letter of the name (a variable name may start with an underscore,
+                // which alone is not a variable name)
+                &ivar
+                    .name
+                    .trim_start_matches('_')
+                    .chars()
+                    .next()
+                    .unwrap_or('I')
+                    .to_string(),
                 1,
             );
             let fvar = varnames[0].clone();
